@@ -483,7 +483,7 @@ def r2(db, rep):
         return None
 
     panics.reach_rule(db, rep, r, fns, scope_prefixes=("graph::Graph",), site_allow=SITE_ALLOW,
-                      extra_discharge=discharge, floor=40)
+                      extra_discharge=discharge, floor=25)
 
 
 SITE_ALLOW = {
